@@ -239,8 +239,32 @@ def tables_after_use(ctx):
                 fn()
             except Exception:  # noqa
                 pass
+    # every public accessor of every rule, with its answers edited by the caller afterwards (an accessor that hands
+    # out the table's own lists lets callers, or itself, change the shipped rules)
+    nacc = 0
+    for rn in sorted(R.rules_dict):
+        try:
+            r = R.Rule(rn)
+        except Exception:  # noqa
+            continue
+        for a in list(r.attributes) if isinstance(getattr(r, "attributes", None), dict) else []:
+            for fn in (lambda: r.is_required_attribute(a), lambda: r.allowed_attribute_values(a),
+                       lambda: r.allowed_attribute_values(a).append("zzEdited")):
+                nacc += 1
+                try:
+                    fn()
+                except Exception:  # noqa
+                    pass
+        for fn in (lambda: r.is_allowed_child("title"), lambda: r.is_allowed_child("zzUnknown"), lambda: list(r.children),
+                   lambda: r.rule_children_names() if hasattr(r, "rule_children_names") else None, lambda: r.has_enum_content()
+                   if hasattr(r, "has_enum_content") else None, lambda: r.content_enum if hasattr(r, "content_enum") else None):
+            nacc += 1
+            try:
+                fn()
+            except Exception:  # noqa
+                pass
     Node.store.clear()
-    ctx.evaluations += len(odd) * 6
+    ctx.evaluations += len(odd) * 6 + nacc
     case = {"after_use": True}
     if dict(R.node_mappings) != before_map:
         added = sorted(set(R.node_mappings) - set(before_map))[:5]
